@@ -19,6 +19,16 @@ type Options struct {
 	// MaxDepth bounds the JavaScript call depth (default 200); exceeding it
 	// also yields Observation.Fuel, because engines differ in stack limits.
 	MaxDepth int
+	// EagerTargetBase selects the ES2015-ES2020 reading for member expressions used as
+	// destructuring-assignment targets and as for-in/of heads: RequireObjectCoercible(base)
+	// when the Reference is created (13.3.2 before ES2021) instead of in PutValue. The two
+	// editions differ only when the base is undefined/null and something observable
+	// (a default-value initialiser, an iterator step) lies between the two points.
+	EagerTargetBase bool
+	// ArgsBeforeUnresolvableCallee reproduces a KNOWN goja deviation (never the specification):
+	// for a call whose callee is an unresolvable identifier the arguments are evaluated before
+	// the ReferenceError is thrown. Used only to attribute a disagreement to that known finding.
+	ArgsBeforeUnresolvableCallee bool
 }
 
 // Observation is what a run exposes.
@@ -195,13 +205,16 @@ type Interp struct {
 	jobs     []func()
 	coros    []*coroutine
 	wg       sync.WaitGroup
+
+	eagerTargetBase bool
+	argsFirst       bool
 }
 
 const maxStringLen = 1 << 16
 
 // Run interprets prog and returns its observation.
 func Run(prog *Node, opt Options) (obs Observation) {
-	it := &Interp{maxSteps: opt.MaxSteps, maxDepth: opt.MaxDepth}
+	it := &Interp{maxSteps: opt.MaxSteps, maxDepth: opt.MaxDepth, eagerTargetBase: opt.EagerTargetBase, argsFirst: opt.ArgsBeforeUnresolvableCallee}
 	if it.maxSteps <= 0 {
 		it.maxSteps = 200000
 	}
